@@ -303,7 +303,7 @@ func verifC04ServerFormat(long bool) {
 	}
 	// the declared format is honoured where the rule says one is in effect: the number is rewritten
 	// with the format's decimal mark (a cheap cross-check that the scenario exercises the format path)
-	if inEffect && f.dm == ',' && f.places > 0 && len(l0) == len(l1) {
+	if inEffect && f.dm == ',' && f.places > 0 && len(l0) == len(l1) && !c04Lossy(frac, f.places) {
 		zzverif.Assert(strings.Contains(l1[len(l1)-3], ","), "C04 (harness): the format that should be in effect is not applied")
 		zzverif.Reach("C04.server.format-applied")
 	}
